@@ -191,5 +191,17 @@ fn inline_views_h<M: crate::mem::MemBuilder + Default, T: Copy + kani::Arbitrary
     core::mem::forget(v);
 }
 
+/// push beyond the capacity of a REAL inline backend instantiated with slack bytes: the call cannot return (the
+/// backend refuses to grow - it must not quietly use the spare bytes), and the length is untouched
+fn inline_overflow_h<M: crate::mem::MemBuilder + Default, T: Copy + kani::Arbitrary + 'static, const CAP: usize>() {
+    let x: [T; CAP] = kani::any();
+    let y: T = kani::any();
+    let mut v: AnyVec<dyn None, M> = AnyVec::new::<T>();
+    { let mut t = v.downcast_mut::<T>().unwrap(); let mut i = 0; while i < CAP { t.push(x[i]); i += 1; } }
+    kani::assert(v.len() == CAP && v.capacity() == CAP, "inline backend: filled to the stated capacity");
+    v.push(AnyValueWrapper::new(y));
+    kani::cover!(true, "RETURNED");
+}
+
 include!("k1_views.inst.rs");
 
